@@ -3,7 +3,7 @@
     functions of the C13 bijections).  Proof file. *)
 From Coq Require Import ZArith List Bool Arith Lia.
 From SP Require Import Design.Flat Design.Layout Design.Sem Comb.CombModel Comb.CombSpec Random.Enum Random.Frag
-  Random.FragSem Random.RunLemmas Random.FragPerm Random.Frag0Enum Random.Frag0Decode Random.Frag0Sem Random.Frag0Valid.
+  Random.FragSem Random.RunLemmas Random.FragPerm Random.Frag0Enum Random.Frag0Decode Random.Frag0Sem Random.Frag0Valid Random.Implied.
 From SP Require Comb.PermProofs Comb.RadixProofs Comb.PrefixProofs.
 Import ListNotations.
 Open Scope nat_scope.
@@ -107,6 +107,49 @@ Proof.
   intros Hx. subst x. cbn in E. rewrite Nat.eqb_refl in E. discriminate.
 Qed.
 
+(** the position of an element in a list, by a decidable equality *)
+Fixpoint gindex {A} (dec : forall x y : A, {x = y} + {x <> y}) (x : A) (l : list A) : nat :=
+  match l with
+  | [] => 0
+  | y :: t => if dec x y then 0 else S (gindex dec x t)
+  end.
+
+Lemma gindex_spec {A} dec (x : A) l d : In x l -> gindex dec x l < length l /\ nth (gindex dec x l) l d = x.
+Proof.
+  induction l as [|y t IH]; intros H; [destruct H|]. cbn [gindex].
+  destruct (dec x y) as [E | E].
+  - subst. cbn. split; [lia | reflexivity].
+  - destruct H as [H | H]; [subst; contradiction|].
+    destruct (IH H) as [H1 H2]. cbn. split; [lia | exact H2].
+Qed.
+
+Lemma gindex_nth {A} dec (l : list A) d i : NoDup l -> i < length l -> gindex dec (nth i l d) l = i.
+Proof.
+  intros Hnd Hi. destruct (gindex_spec dec (nth i l d) l d (nth_In l d Hi)) as [H1 H2].
+  apply (proj1 (NoDup_nth l d) Hnd); assumption.
+Qed.
+
+Definition asg_dec (x y : asg) : {x = y} + {x <> y}.
+Proof. repeat decide equality. Defined.
+
+Lemma in_combine_map (L : nat -> nat) fs f l : In (f, l) (combine fs (map L fs)) -> In f fs /\ l = L f.
+Proof.
+  induction fs as [|g t IH]; intros H; [destruct H|]. cbn [map combine] in H. destruct H as [H | H].
+  - inversion H; subst. split; [left; reflexivity | reflexivity].
+  - destruct (IH H) as [H1 H2]. split; [right; exact H1 | exact H2].
+Qed.
+
+Lemma count_sym_In' w x : (0 < count_sym w x)%Z -> In x w.
+Proof. unfold count_sym. intros H. apply (count_occ_In Z.eq_dec). lia. Qed.
+
+Lemma Forall2_nth_intro {A B} (P : A -> B -> Prop) xs ys da db : length xs = length ys ->
+  (forall i, i < length xs -> P (nth i xs da) (nth i ys db)) -> Forall2 P xs ys.
+Proof.
+  revert ys. induction xs as [|x t IH]; intros [|y ys] Hl H; cbn in Hl; try discriminate; constructor.
+  - apply (H 0). cbn. lia.
+  - apply IH; [lia|]. intros i Hi. apply (H (S i)). cbn. lia.
+Qed.
+
 Section F0C.
 Variable fb : flat.
 Hypothesis HF : frag2 fb = true.
@@ -153,6 +196,16 @@ Qed.
 Lemma v_length : length s = n.
 Proof. apply v_parts. Qed.
 
+(** every factor of [act_design] applies in every trial *)
+Lemma f0_applies f fd t : In f (fl_act fb) -> nth_error (s_factors S0) f = Some fd -> applies fd t = true.
+Proof.
+  intros Hact E. destruct (f0_sem_factor fb HF f fd Hact E) as (_ & _ & Hsu & Hder).
+  destruct (is_derived fb f) eqn:Ed.
+  - destruct (f0_sem_crossed_derived fb HF f fd Hact Ed E) as (_ & d & w & _ & _ & Hd & _).
+    apply (applies_within fd _ Hd eq_refl eq_refl Hsu t).
+  - unfold applies. rewrite (Hder eq_refl). reflexivity.
+Qed.
+
 Lemma v_factor f : In f (fl_act fb) -> length (nth f s []) = T /\
   forall t, t < T -> exists l, get_cell s f t = Some l /\ l < nlevels fb f.
 Proof.
@@ -167,7 +220,7 @@ Proof.
   - exists l. split; [reflexivity|]. apply andb_prop in Hcells. destruct Hcells as [Hcells _].
     apply andb_prop in Hcells. destruct Hcells as [Hcells _]. apply andb_prop in Hcells. destruct Hcells as [_ Hlt'].
     apply Nat.ltb_lt in Hlt'. rewrite Hnl in Hlt'. exact Hlt'.
-  - unfold applies in Hcells. rewrite Hder in Hcells. discriminate.
+  - rewrite (f0_applies f fd t Hact E) in Hcells. discriminate.
 Qed.
 
 Definition lvl (f t : nat) : nat := match get_cell s f t with Some l => l | None => 0 end.
@@ -216,18 +269,96 @@ Proof.
   intros Hin. apply (count_level_zero _ _ t (v_exclude g _ Hin)). exact Hc.
 Qed.
 
+(** a derived factor of the crossing: its level is accepted for the levels of the factors it reads *)
+Lemma v_derived f t : In f (fl_act fb) -> is_derived fb f = true -> t < T ->
+  exists w, window_of fb f = Some w /\ (forall d, In d (win_deps w) -> In d (fl_act fb) /\ is_derived fb d = false) /\
+            predicate fb f (lvl f t) (map (fun a => [Some a]) (map (fun d => lvl d t) (win_deps w))) = true.
+Proof.
+  intros Hact Hd Ht. pose proof (act_lt fb HF f Hact) as Hf. destruct v_parts as (_ & Hfac & _ & _).
+  assert (Hlt : f < length (s_factors S0)) by (rewrite (f0_sem_factors_length fb HF); exact Hf).
+  destruct (nth_error (s_factors S0) f) as [fd|] eqn:E; [|apply nth_error_None in E; lia].
+  specialize (Hfac f fd E). destruct (f0_sem_factor fb HF f fd Hact E) as (_ & Hnl & Hsu & _).
+  destruct (f0_sem_crossed_derived fb HF f fd Hact Hd E) as (_ & d & w & Hfa & Hw & Hder & Hdeps).
+  exists w. split; [unfold window_of; rewrite Hfa; exact Hw|]. split; [exact Hdeps|].
+  unfold factor_ok in Hfac. apply andb_prop in Hfac. destruct Hfac as [_ Hcells]. rewrite forallb_forall in Hcells.
+  specialize (Hcells t ltac:(apply in_seq; rewrite (f0_sem_trials fb HF); lia)).
+  destruct (lvl_cell f t Hact Ht) as [Ec _]. rewrite Ec, Hder in Hcells.
+  apply andb_prop in Hcells. destruct Hcells as [_ Hacc].
+  set (dw := {| w_deps := win_deps w; w_width := 1; w_stride := 1; w_start := 0; w_table := map lv_accepts (ff_levels d) |}) in *.
+  rewrite (window_args_within fd dw eq_refl Hsu s t) in Hacc. cbn [w_deps dw] in Hacc.
+  unfold dw in Hacc. rewrite (sem_accepts_predicate fb HF f d _ _ _ _ _ _ Hfa) in Hacc. rewrite <- Hacc. f_equal.
+  rewrite map_map. apply map_ext_in. intros x Hx. destruct (lvl_cell x t (proj1 (Hdeps x Hx)) Ht) as [Ex _]. rewrite Ex. reflexivity.
+Qed.
+
 Lemma cs_in_prod t : t < T -> In (nth t cs []) prod.
 Proof.
-  intros Ht. rewrite cs_nth by exact Ht. apply (f0_cprod_spec fb HF). split.
+  intros Ht. rewrite cs_nth by exact Ht. apply (f0_cprod_spec2 fb HF). split.
   - apply product_In. apply Forall2_map_same.
     intros f Hf. unfold all_levels. apply in_seq.
     destruct (lvl_cell f t (f0_cact_main fb HF f Hf) Ht) as [_ H]. lia.
-  - apply not_true_is_false. intros E. apply (f0_excluded_spec fb HF) in E. destruct E as (f & l & Hk & Hl).
-    rewrite alookup_combine_map in Hl. destruct (memb f (the_crossing fb)) eqn:Em; [|discriminate].
-    inversion Hl as [Hl']. apply memb_In in Em.
-    assert (Hf : In f (fl_act fb)) by (apply (f0_cact_main fb HF); exact Em).
-    destruct (lvl_cell f t Hf Ht) as [Hc _].
-    apply (count_level_zero _ _ t (v_exclude f l Hk)). rewrite <- Hl'. exact Hc.
+  - unfold is_excluded_or_inconsistent_combination.
+    assert (Hex : is_excluded_combination fb (combine c (map (fun f => lvl f t) c)) = false).
+    { apply not_true_is_false. intros E. apply (f0_excluded_spec fb HF) in E. destruct E as (f & l & Hk & Hl).
+      rewrite alookup_combine_map in Hl. destruct (memb f (the_crossing fb)) eqn:Em; [|discriminate].
+      inversion Hl as [Hl']. apply memb_In in Em.
+      assert (Hf : In f (fl_act fb)) by (apply (f0_cact_main fb HF); exact Em).
+      destruct (lvl_cell f t Hf Ht) as [Hc _].
+      apply (count_level_zero _ _ t (v_exclude f l Hk)). rewrite <- Hl'. exact Hc. }
+    rewrite Hex. apply not_true_is_false. intros E. apply existsb_exists in E. destruct E as [[f l] [Hin E]]. cbn [fst snd] in E.
+    apply in_combine_map in Hin. destruct Hin as [Hfc ->].
+    assert (Hact : In f (fl_act fb)) by (apply (f0_cact_main fb HF); exact Hfc).
+    destruct (is_derived fb f) eqn:Ed; [|discriminate]. cbn [andb] in E.
+    destruct (v_derived f t Hact Ed Ht) as (w & Hw & Hdeps & Hp). rewrite Hw in E.
+    destruct (negb (is_complex fb f)); [|discriminate].
+    apply negb_true_iff in E. apply not_true_iff_false in E. apply E. apply existsb_exists.
+    exists (map (fun d => lvl d t) (win_deps w)). split; [|exact Hp].
+    apply product_In. apply Forall2_map_same. intros x Hx. rewrite alookup_combine_map.
+    destruct (memb x (the_crossing fb)); [left; reflexivity|]. unfold all_levels. apply in_seq.
+    destruct (lvl_cell x t (proj1 (Hdeps x Hx)) Ht) as [_ H]. lia.
+Qed.
+
+(** * The source combination of a trial *)
+Local Notation ubs := (f0_ubs fb).
+Local Notation srcs := (f0_srcs fb).
+Local Notation inst := (f0_instances fb).
+
+Definition src_of (t : nat) : asg := combine ubs (map (fun f => lvl f t) ubs).
+Definition src_num_of (t : nat) : nat := gindex asg_dec (src_of t) srcs.
+
+Lemma src_of_in t : t < T -> In (src_of t) srcs.
+Proof.
+  intros Ht. unfold f0_srcs, instances_of, src_of. apply in_map_iff. exists (map (fun f => lvl f t) ubs). split; [reflexivity|].
+  apply product_In. apply Forall2_map_same. intros f Hf. unfold all_levels. apply in_seq.
+  destruct (lvl_cell f t (f0_ubs_act fb HF f Hf) Ht) as [_ H]. lia.
+Qed.
+
+Lemma src_num_of_spec t : t < T -> src_num_of t < length srcs /\ nth (src_num_of t) srcs [] = src_of t.
+Proof. intros Ht. apply gindex_spec. apply src_of_in. exact Ht. Qed.
+
+Lemma merged_lookup t x : In x c \/ In x ubs ->
+  alookup (combine c (map (fun f => lvl f t) c) ++ src_of t) x = Some (lvl x t).
+Proof.
+  intros H. rewrite alookup_app, alookup_combine_map. destruct (memb x (the_crossing fb)) eqn:Em; [reflexivity|].
+  destruct H as [H | H]; [apply memb_In in H; congruence|]. unfold src_of. rewrite alookup_combine_map.
+  apply memb_In in H. rewrite H. reflexivity.
+Qed.
+
+(** the source combination of a trial of a valid sequence is admitted for the instance of the trial *)
+Lemma v_src_ok t : t < T -> src_ok fb (combine c (nth t cs [])) (src_of t) = true.
+Proof.
+  intros Ht.
+  assert (Hci : In (combine c (nth t cs [])) inst).
+  { unfold f0_instances. apply in_map_iff. exists (nth t cs []). split; [reflexivity | apply cs_in_prod; exact Ht]. }
+  pose proof (f0_merged_ok fb HF _ _ Hci (src_of_in t Ht)) as Hm.
+  destruct (source_allowed_spec fb HF _ _ Hm) as [_ Hspec]. apply Hspec. rewrite cs_nth by exact Ht.
+  intros df l w0 Hdf Hl Hw0. unfold f0_cd in Hdf. apply filter_In in Hdf. destruct Hdf as [Hdfc Hdd].
+  assert (Hact : In df (fl_act fb)) by (apply (f0_cact_main fb HF); exact Hdfc).
+  rewrite (merged_lookup t df (or_introl Hdfc)) in Hl. inversion Hl; subst l.
+  destruct (v_derived df t Hact Hdd Ht) as (w & Hw & Hdeps & Hp). rewrite Hw in Hw0. inversion Hw0; subst w0.
+  rewrite <- Hp. f_equal. rewrite map_map. apply map_ext_in. intros x Hx. f_equal. apply merged_lookup.
+  destruct (Hdeps x Hx) as [Hxa Hxd]. destruct (in_dec Nat.eq_dec x c) as [Hc | Hnc]; [left; exact Hc | right].
+  apply (ubs_In fb HF Hq). split; [exact Hxa|]. split; [exact Hnc|].
+  apply (f0_sf_In fb HF df w x); [unfold f0_cd; apply filter_In; split; assumption | exact Hw | exact Hx].
 Qed.
 
 (** * One round *)
@@ -251,9 +382,17 @@ Definition zlevels (g a tc : nat) : list Z := map (fun t' => Z.of_nat (nindex (l
 (** the multiplicity of a combination in a round *)
 Definition mult_of (j : nat) : nat := f0_cw fb (nth j prod []) * the_weight fb.
 
+(** the index of the source combination of trial [a + t'] among those its instance admits *)
+Definition src_idx (a tc t' : nat) : Z :=
+  Z.of_nat (nindex (src_num_of (a + t')) (f0_valid fb (nth (Z.to_nat (nth t' (slice_perm a tc) 0%Z)) inst []))).
+(** the trial of a round in which instance [p] stands *)
+Definition trial_of (a tc p : nat) : nat := gindex Z.eq_dec (Z.of_nat p) (slice_perm a tc).
+Definition src_comp (a tc : nat) : list Z :=
+  if full fb tc then map (fun p => src_idx a tc (trial_of a tc p)) (seq 0 q) else map (src_idx a tc) (seq 0 tc).
+
 Definition round_comp (a tc : nat) : comp :=
   (p_R cws (slice_perm a tc),
-   zeros tc,
+   src_comp a tc,
    map (fun g => comb_rank (Z.of_nat (length (f0_L fb g))) (zlevels g a tc)) ubi).
 
 Lemma count_sym_index (blk : list (list nat)) j : j < q -> (forall x, In x blk -> In x prod) ->
@@ -292,6 +431,90 @@ Proof.
     destruct (index_of_spec _ prod Hin) as [_ E]. rewrite E. apply slice_nth. exact Ht'.
 Qed.
 
+Lemma nth_map_seq {B} (F : nat -> B) m i d : i < m -> nth i (map F (seq 0 m)) d = F i.
+Proof.
+  intros Hi. rewrite (nth_indep _ d (F 0)) by (rewrite map_length, seq_length; exact Hi).
+  rewrite (map_nth F), seq_nth by exact Hi. reflexivity.
+Qed.
+
+Section Round.
+Variables a tc : nat.
+Hypothesis Hb : a + tc <= T.
+Hypothesis Hle : tc <= C.
+Hypothesis Hcnt : forall j, j < q -> count_in (nth j prod []) (slice a tc) <= mult_of j.
+Local Notation perm := (slice_perm a tc).
+
+Lemma perm_parts : bounded_word cws (Z.of_nat tc) perm /\ length perm = tc /\
+  (forall t', t' < tc -> Z.to_nat (nth t' perm 0%Z) < q /\ (0 <= nth t' perm 0)%Z /\
+                         nth (Z.to_nat (nth t' perm 0%Z)) inst [] = combine c (nth (a + t') cs [])).
+Proof.
+  destruct (slice_perm_spec a tc Hb Hcnt) as (Hbw & Hpn). split; [exact Hbw|].
+  destruct (bw_parts cws tc perm Hbw) as (Hl & Hs & _). rewrite (f0_cws_length fb HF) in Hs. split; [exact Hl|].
+  intros t' Ht'. pose proof (Forall_nth' _ _ t' 0%Z Hs ltac:(lia)) as H. cbv beta in H.
+  split; [lia|]. split; [lia|]. rewrite (nth_inst fb HF Hq) by lia. rewrite Hpn by exact Ht'. reflexivity.
+Qed.
+
+(** the source combination of a trial is among those of its instance *)
+Lemma src_num_valid t' : t' < tc ->
+  In (src_num_of (a + t')) (f0_valid fb (nth (Z.to_nat (nth t' perm 0%Z)) inst [])).
+Proof.
+  intros Ht'. destruct perm_parts as (_ & _ & Hp). destruct (Hp t' Ht') as (_ & _ & Ei). rewrite Ei.
+  destruct (src_num_of_spec (a + t') ltac:(lia)) as [H1 H2].
+  apply (valid_In fb HF Hq). split; [exact H1|]. rewrite H2. apply v_src_ok. lia.
+Qed.
+
+Lemma src_idx_spec t' : t' < tc ->
+  (0 <= src_idx a tc t' < Z.of_nat (length (f0_valid fb (nth (Z.to_nat (nth t' perm 0%Z)) inst []))))%Z /\
+  nth (Z.to_nat (src_idx a tc t')) (f0_valid fb (nth (Z.to_nat (nth t' perm 0%Z)) inst [])) 0 = src_num_of (a + t').
+Proof.
+  intros Ht'. unfold src_idx. destruct (nindex_spec _ _ (src_num_valid t' Ht')) as [H1 H2]. rewrite Nat2Z.id. split; [lia | exact H2].
+Qed.
+
+(** a round over all instances of an unweighted crossing lists every instance once *)
+Lemma full_perm : full fb tc = true ->
+  (forall p, p < q -> trial_of a tc p < tc /\ nth (trial_of a tc p) perm 0%Z = Z.of_nat p) /\
+  (forall t', t' < tc -> trial_of a tc (Z.to_nat (nth t' perm 0%Z)) = t').
+Proof.
+  intros Hf. unfold full in Hf. apply andb_prop in Hf. destruct Hf as [Etc Hu]. apply Nat.eqb_eq in Etc.
+  destruct perm_parts as (Hbw & Hl & Hp). split.
+  - intros p Hpq.
+    assert (Hbw' : bounded_word cws (Z.of_nat (p_C cws)) perm).
+    { rewrite (f0_p_C fb HF), (f0_unw_C fb HF Hu), <- Etc. exact Hbw. }
+    pose proof (bw_full cws (f0_cws_nonneg fb HF) _ Hbw' p ltac:(rewrite (f0_cws_length fb HF); exact Hpq)) as Hc.
+    rewrite (unw_nth cws p Hu ltac:(rewrite (f0_cws_length fb HF); exact Hpq)) in Hc.
+    assert (Hin : In (Z.of_nat p) perm) by (apply count_sym_In'; lia).
+    destruct (gindex_spec Z.eq_dec (Z.of_nat p) perm 0%Z Hin) as [H1 H2]. unfold trial_of. split; [lia | exact H2].
+  - intros t' Ht'. destruct (Hp t' Ht') as (_ & Hnn & _). unfold trial_of. rewrite Z2Nat.id by exact Hnn.
+    apply gindex_nth; [|lia]. apply (bw_ones cws tc perm Hu) in Hbw. apply Hbw.
+Qed.
+
+Lemma src_comp_pos t' : t' < tc -> nth (src_pos fb tc perm t') (src_comp a tc) 0%Z = src_idx a tc t'.
+Proof.
+  intros Ht'. unfold src_pos, src_comp. destruct perm_parts as (_ & _ & Hp). destruct (Hp t' Ht') as (Hpq & _ & _).
+  destruct (full fb tc) eqn:Ef.
+  - rewrite nth_map_seq by exact Hpq. destruct (full_perm Ef) as [_ H]. rewrite (H t' Ht'). reflexivity.
+  - apply nth_map_seq. exact Ht'.
+Qed.
+
+Lemma src_comp_ok : Forall2 (fun s0 x => (0 <= x < s0)%Z) (src_shapes fb tc (p_R cws perm)) (src_comp a tc).
+Proof.
+  destruct perm_parts as (Hbw & Hl & Hp).
+  destruct (p_R_spec cws (f0_cws_nonneg fb HF) tc perm ltac:(rewrite (f0_p_C fb HF); exact Hle) Hbw) as [_ Hcomp].
+  assert (Hperm : perm_of fb tc (p_R cws perm) = perm) by (unfold perm_of; rewrite Hcomp; reflexivity).
+  unfold src_shapes, src_comp. rewrite Hperm. destruct (full fb tc) eqn:Ef.
+  - apply (Forall2_nth_intro _ _ _ 0%Z 0%Z); [rewrite (combs_length fb HF Hq), map_length, seq_length; reflexivity|].
+    intros p Hpq. rewrite (combs_length fb HF Hq) in Hpq. rewrite nth_map_seq by exact Hpq.
+    destruct (full_perm Ef) as [H _]. destruct (H p Hpq) as [Ht' Ep].
+    destruct (src_idx_spec _ Ht') as [Hr _]. rewrite Ep, Nat2Z.id in Hr. rewrite (combs_nth fb HF Hq p Hpq). exact Hr.
+  - apply (Forall2_nth_intro _ _ _ 0%Z 0%Z); [rewrite !map_length, seq_length; exact Hl|].
+    intros t' Ht'. rewrite map_length, Hl in Ht'. rewrite nth_map_seq by exact Ht'.
+    rewrite (nth_indep _ 0%Z (nth (Z.to_nat 0%Z) (f0_combs fb) 0%Z)) by (rewrite map_length; lia).
+    rewrite (map_nth (fun p => nth (Z.to_nat p) (f0_combs fb) 0%Z)).
+    destruct (Hp t' Ht') as (Hpq & _ & _). rewrite (combs_nth fb HF Hq _ Hpq). apply src_idx_spec. exact Ht'.
+Qed.
+
+End Round.
+
 Lemma round_comp_spec a tc : a + tc <= T -> tc <= C ->
   (forall j, j < q -> count_in (nth j prod []) (slice a tc) <= mult_of j) ->
   comp_ok fb tc (round_comp a tc) /\
@@ -314,9 +537,11 @@ Proof.
       apply in_seq in Ht'. subst d. destruct (nindex_spec _ _ (lvl_in_L g (a + t') Hgn ltac:(lia))) as [H _]. lia. }
     destruct (Hb2 _ Hlen Hdig) as [Hr Hc]. split; [exact Hr|]. unfold combo_of. rewrite Hc. reflexivity. }
   assert (Hok : comp_ok fb tc (round_comp a tc)).
-  { unfold round_comp, comp_ok. split; [exact Hrange|]. split; [rewrite Hcomp; discriminate|]. split; [reflexivity|].
+  { unfold round_comp, comp_ok. split; [exact Hrange|]. split; [rewrite Hcomp; discriminate|].
+    split; [apply (src_comp_ok a tc Hb Hle Hcnt)|].
     rewrite <- (map_id ubi) at 1. apply Forall2_map_same. intros g Hg. apply Hz. exact Hg. }
-  split; [exact Hok|]. intros g Hg. apply (K_In fb HF Hq) in Hg. apply in_app_iff in Hg. destruct Hg as [Hg | Hg].
+  split; [exact Hok|]. intros g Hg. apply (K_In fb HF Hq) in Hg. apply in_app_iff in Hg.
+  destruct Hg as [Hg | Hg]; [|apply in_app_iff in Hg; destruct Hg as [Hg | Hg]].
   - apply In_nth_error in Hg. destruct Hg as [i Hi].
     rewrite (round_row_crossed fb HF Hq tc _ i g Hle Hok Hi). unfold round_comp at 1. cbn [fst]. rewrite Hperm.
     apply map_ext_in. intros t' Ht'. apply in_seq in Ht'. unfold crossed_level. rewrite Hpn by lia.
@@ -326,6 +551,15 @@ Proof.
     rewrite (nth_indep (map L c) 0 (L 0)) by (rewrite map_length; exact Hil).
     rewrite (map_nth L). rewrite (nth_error_nth _ _ 0 Hi). unfold L.
     symmetry. apply lvl_cell; [apply (f0_cact_main fb HF); eapply nth_error_In; exact Hi | lia].
+  - pose proof Hg as Hgs. apply In_nth_error in Hg. destruct Hg as [j Hj].
+    rewrite (round_row_src fb HF Hq tc _ j g Hle Hok Hj). unfold round_comp at 1 2. cbn [fst snd]. rewrite Hperm.
+    apply map_ext_in. intros t' Ht'. apply in_seq in Ht'. unfold src_level, src_at, src_num.
+    rewrite (src_comp_pos a tc Hb Hle Hcnt t' ltac:(lia)).
+    destruct (src_idx_spec a tc Hb Hle Hcnt t' ltac:(lia)) as [_ Es]. rewrite Es.
+    destruct (src_num_of_spec (a + t') ltac:(lia)) as [_ E2]. rewrite E2.
+    rewrite (nth_error_nth _ _ 0 Hj). unfold src_of. rewrite alookup_combine_map.
+    rewrite (proj2 (memb_In g (f0_ubs fb)) Hgs). symmetry.
+    apply lvl_cell; [apply (f0_ubs_act fb HF); exact Hgs | lia].
   - pose proof Hg as Hgu. apply In_nth_error in Hg. destruct Hg as [j Hj].
     rewrite (round_row_ind fb HF Hq tc _ j g Hle Hok Hj). unfold round_comp at 1. cbn [snd].
     assert (Hjl : j < length ubi) by (apply nth_error_Some; congruence).
